@@ -679,7 +679,8 @@ func c20Boundary(r *vh.Rand, tier string) []c20In {
 	var bds []bd
 	for _, b := range []int{8, 16, 50, 100} {
 		for sz := b; sz <= 1100; sz *= 2 {
-			if sz >= 180 {
+			// quick tier: each boundary once per family (8: 256, 512, 1024; 16: 256; 50: 200, 400, 800; 100: 400)
+			if sz >= 180 && (tier == "thorough" || b == 8 || b == 50 || (b == 16 && sz == 256) || (b == 100 && sz == 400)) {
 				bds = append(bds, bd{b, sz})
 			}
 		}
@@ -877,7 +878,7 @@ func c20Gen(r *vh.Rand, tier string, n int) []c20In {
 	}
 	ins = append(ins, c20Boundary(r, tier)...)
 	// random valid streams through chopped readers
-	for k := 0; k < n/8; k++ {
+	for k := 0; k < n/12; k++ {
 		var sigs []c20Signed
 		for j := r.Range(1, 3); j > 0; j-- {
 			typ, h, body := c20Signable(r, true)
